@@ -60,3 +60,11 @@ func VStepF(body []Instruction, ints []int64, floats []float64, typs []reflect.T
 	err := vm.Run(fn, nil, nil)
 	return vm.regs.int, vm.regs.float, err
 }
+
+// VShow shows v in context ctx on a fresh renderer with a working env and
+// returns the error of Show; the output is discarded.
+func VShow(v any, ctx int) error {
+	var w vWriter
+	r := newRenderer(&w)
+	return r.Show(&env{typeof: typeOfFunc}, v, Context(ctx))
+}
